@@ -3,7 +3,7 @@ import ast
 from fractions import Fraction as F
 from .. import alg
 from ..alg import Rat, C
-from ..model import AnalysisError
+from ..model import AnalysisError, stmt_text
 from ..symval import Evaluator, Tup, Obj, NoneV, NONE, CallV, argkey
 from ..symcheck import Oracle, check_equal, compare_values, show
 from ..rules import where
@@ -40,7 +40,7 @@ def atrf_rev(x, y, z, epoch, vcv):
 '''
 
 
-def run(repo, rep):
+def _run(repo, rep):
     alg.reset()
     rep.trust('sv/alg.py exact normal forms; opaque call atoms carry every formal parameter of the callee (defaults explicit)')
     ev = Evaluator(repo)
@@ -67,6 +67,9 @@ def run(repo, rep):
     ref = orc.call('c14', x=Rat.sym('x'), y=Rat.sym('y'), z=Rat.sym('z'), epoch=Rat.sym('epoch'), trans=To, vcv=Rat.sym('vcv'))
     check_equal(rep, 'R-WIRE', 'R-WIRE::geodepy/transform.py::conform14::result', w, val, ref,
                 'conform14(x, y, z, epoch, trans, vcv) = conform7(x, y, z, trans + epoch, vcv)')
+    # every conform7 call of conform14 receives the ADVANCED set.  A short cut that hands on the set as it is must be taken only where
+    # advancing changes none of the seven parameters: the branch conditions of the call are evaluated with each rate in turn non-zero
+    fastpath_rule(repo, rep, f, ev1, T)
     # type guards present
     guards = 0
     for st in f.node.body:
@@ -191,6 +194,71 @@ def sd_rules(repo, rep):
         check_equal(rep, 'R-FORMULA', base + 'sd_' + p, w, new.fields.get('sd_' + p), want,
                     'sigma of %s at the new epoch = sqrt(sd_%s^2 + (sd_d_%s * dt)^2)' % (p, p, p))
         check_equal(rep, 'R-FORMULA', base + 'sd_d_' + p, w, new.fields.get('sd_d_' + p), SD.fields['sd_d_' + p], 'rate sigma sd_d_%s passed on unchanged' % p)
+
+
+RATES = ('d_tx', 'd_ty', 'd_tz', 'd_sc', 'd_rx', 'd_ry', 'd_rz')
+
+
+def fastpath_rule(repo, rep, f, ev1, T):
+    from .. import guards as G
+    key = 'R-WIRE::geodepy/transform.py::conform14::advanced-set'
+    ps = [p.name for p in repo.func('geodepy.transform', 'conform7').params]
+    n = 0
+    bad = []
+    for (caller, callee, bound, node), path in zip(ev1.calls, ev1.call_paths):
+        if caller != 'conform14' or callee != 'conform7':
+            continue
+        n += 1
+        arg = bound.get(ps[3])
+        if arg is not T:
+            continue                # the result rule compares the argument with trans + epoch
+        # the set itself is handed on: under which rates can this call be reached?
+        ids = dict((r, _single_atom_id(T.fields.get(r))) for r in RATES)
+        if any(v is None for v in ids.values()):
+            bad.append((node, None, 'the rates of the symbolic set are not plain symbols'))
+            continue
+        free = []
+        for r in RATES:
+            for val in (F(1), F(-1, 1000)):
+                env = dict((ids[q], F(0)) for q in RATES)
+                env[ids[r]] = val
+                vs = [G.numeval(c, env) if isinstance(c, Rat) else (F(1) if getattr(c, 'b', True) else F(0)) for c in path]
+                if all(v is not None and v != 0 for v in vs):
+                    free.append(r)
+                    break
+                if any(v is None for v in vs):
+                    free.append(r + '?')
+                    break
+        if free:
+            bad.append((node, free, None))
+    if n == 0:
+        rep.undecided('R-WIRE', key, where(f, f.node), 'conform14 makes no conform7 call')
+        return
+    if not bad:
+        rep.holds('R-WIRE', key, where(f, f.node), 'every conform7 call of conform14 (%d) receives the advanced set, or the set itself only where all seven rates are zero' % n)
+    for node, free, why in bad:
+        if why:
+            rep.undecided('R-WIRE', key, where(f, node), why)
+        else:
+            rep.violated('R-WIRE', key, where(f, node), 'conform7 is called with the set as it is (not advanced to the epoch) on a path that is taken although %s may be non-zero: '
+                         'the parameter does not move with time there' % ', '.join(free), expected='conform7(x, y, z, trans + to_epoch, vcv)', actual=stmt_text(node)[:120])
+
+
+def _single_atom_id(v):
+    from ..symval import _single_atom
+    if not isinstance(v, Rat):
+        return None
+    a = _single_atom(v)
+    return a.id if a is not None and a.kind == 'sym' else None
+
+
+def run(repo, rep):
+    from ..symval import INPLACE_EVENTS
+    from . import common
+    del INPLACE_EVENTS[:]
+    _run(repo, rep)
+    # in-place array updates met while evaluating the functions above (element type follows the caller's numbers)
+    common.dtype_rule(repo, rep, [('geodepy.transform', 'conform7'), ('geodepy.transform', 'conform14')])
 
 
 def controls(repo):
